@@ -4,6 +4,7 @@ CONSTANTS
   AeadIds = {1, 2, 3}
   MaxLens = {0, 32, 255}
   NameSets = {1, 2}
+  ShapeIdx = {1, 2, 3, 4}
   Sample = 99
   Mutant = "none"
 INIT Init
